@@ -1148,16 +1148,29 @@ def hash_args_eval(
             var_param_name = param.name
             break
 
+    # Names of the parameters that positional arguments bind to. Positional binding stops at
+    # the variadic parameter (or the first keyword-only parameter).
+    positional_names: list[str] = []
+    for param in sig.parameters.values():
+        if param.kind not in (
+            inspect.Parameter.POSITIONAL_ONLY,
+            inspect.Parameter.POSITIONAL_OR_KEYWORD,
+        ):
+            break
+        positional_names.append(param.name)
+
     # Filter args to remove config_args.
     args2 = [
         arg_value
-        for arg_name, arg_value in zip(sig.parameters, args)
+        for arg_name, arg_value in zip(positional_names, args)
         if keep_arg(arg_name, arg_value)
     ]
 
-    # Additional arguments are assumed to be variadic arguments.
+    # Additional arguments are variadic arguments.
     args2.extend(
-        arg_value for arg_value in args[len(sig.parameters) :] if var_param_name not in config_args
+        arg_value
+        for arg_value in args[len(positional_names) :]
+        if var_param_name not in config_args
     )
 
     # Filter kwargs.
